@@ -226,7 +226,8 @@ theorem build_repr_isOk : (d : DM) → (ty : Ty) → (nul : Bool) → ty.wf = tr
       | any => simp only []; split <;> simp_all
       | _ => simp
   | .map es, ty, nul, hwf => by
-    unfold build conformsRepr
+    rw [build_map_ideal]
+    unfold conformsRepr
     simp only [kindedTarget, resolveKinded_ideal_nul nul]
     cases hres : resolveKinded Engine.ideal false .map ty with
     | reject => simp
@@ -279,7 +280,8 @@ theorem buildList_isOk : (xs : DMs) → (ety : Ty) → (enul : Bool) → ety.wf 
     (buildList Engine.ideal .repr ety enul acc xs).isOk = conformsReprList ety enul xs
   | .nil, _, _, _, _ => by simp [buildList, conformsReprList]
   | .cons x xs, ety, enul, hwf, acc => by
-    unfold buildList conformsReprList
+    rw [buildList_cons_ideal]
+    unfold conformsReprList
     rw [← build_repr_isOk x ety enul hwf]
     cases build Engine.ideal .repr ety enul none x with
     | ok v => simp only [Outcome.isOk_ok, Bool.true_and]; exact buildList_isOk xs ety enul hwf _
@@ -291,7 +293,8 @@ theorem buildMap_isOk : (es : DMKVs) → (vty : Ty) → (vnul : Bool) → vty.wf
     (buildMap Engine.ideal .repr vty vnul acc es).isOk = conformsReprMap vty vnul seen es
   | .nil, _, _, _, _, _, _ => by simp [buildMap, conformsReprMap]
   | .cons k v es, vty, vnul, hwf, acc, seen, hseen => by
-    unfold buildMap conformsReprMap
+    rw [buildMap_cons_ideal]
+    unfold conformsReprMap
     simp only [ideal_dupMapKey, Bool.not_false, Bool.and_true, hseen k]
     by_cases hk : acc.any (fun p => p.1 == k) = true
     · simp [hk]
@@ -319,7 +322,8 @@ theorem buildStruct_isOk : (es : DMKVs) → (fs : List Field) → (∀ f ∈ fs,
     rw [finish_isOk]
     exact all_congr_mem _ _ fs (fun f hf => by rw [hseen f hf])
   | .cons k x es, fs, hwf, hnd, hndr, g, seen, hseen => by
-    unfold buildStruct conformsReprStruct
+    rw [buildStruct_cons_ideal]
+    unfold conformsReprStruct
     cases hf : fieldByKey Engine.ideal .repr fs k with
     | none =>
       have := fieldByKey_ideal_none .repr fs k hf
@@ -358,7 +362,8 @@ theorem buildTuple_isOk : (xs : DMs) → (fs : List Field) → (∀ f ∈ fs, f.
     (∀ f ∈ pre, (g f.name).isSome = true) → (∀ f ∈ suf, g f.name = none) →
     (buildTuple Engine.ideal fs (SSt.ofFn fs g) pre.length xs).isOk = conformsReprTuple suf xs
   | .nil, fs, _, _, pre, suf, hfs, g, hpre, hsuf => by
-    unfold buildTuple conformsReprTuple
+    rw [buildTuple_nil_ideal]
+    unfold conformsReprTuple
     rw [finish_isOk, hfs, List.all_append]
     have h1 : pre.all (fun f => f.opt || (g f.name).isSome) = true := by
       simp only [List.all_eq_true, Bool.or_eq_true]
@@ -367,11 +372,13 @@ theorem buildTuple_isOk : (xs : DMs) → (fs : List Field) → (∀ f ∈ fs, f.
       all_congr_mem _ _ suf (fun f hf => by simp [hsuf f hf])
     rw [h1, h2, Bool.true_and]
   | .cons x xs, fs, hwf, hnd, pre, [], hfs, g, hpre, hsuf => by
-    unfold buildTuple conformsReprTuple
+    rw [buildTuple_cons_ideal]
+    unfold conformsReprTuple
     have : fs[pre.length]? = none := by simp [hfs]
     simp [this]
   | .cons x xs, fs, hwf, hnd, pre, f :: suf, hfs, g, hpre, hsuf => by
-    unfold buildTuple conformsReprTuple
+    rw [buildTuple_cons_ideal]
+    unfold conformsReprTuple
     have hi : fs[pre.length]? = some f := by simp [hfs]
     have hmem : f ∈ fs := List.mem_of_getElem? hi
     simp only [hi, SSt.curOf_ideal]
